@@ -40,6 +40,7 @@ func GenPlan(family string, seed uint64) *Plan {
 	bareConfig(p, seed)
 	sameIDConfig(p, seed)
 	bigPrioConfig(p, seed)
+	vodConfig(p, seed)
 	if r := NewRng(seed, "inlock/"+family); !p.Sched.Free && len(p.Insts) > 0 && p.Sched.InLock == 0 && p.Sched.YieldProb > 0 {
 		switch family {
 		case "faultfree", "mixed", "c08", "c05ack", "c07rounds", "c13", "ctxcancel", "stoprestart":
@@ -63,6 +64,34 @@ func GenPlan(family string, seed uint64) *Plan {
 		p.Store.Dialect = "mock"
 	}
 	return p
+}
+
+// vodConfig: in one plan out of five of the fault-free families the application calls
+// ValidateToken / ValidateTokenOrDemote on its instances - at random moments and at the answer of
+// the instance's own Creates (the moment of a promotion), leader or not: a worker that asks "do I
+// still lead?" before each job does so on followers too. In fault-free operation none of these
+// calls may cost a leader its term (C07). Drawn from a stream of its own.
+func vodConfig(p *Plan, seed uint64) {
+	switch p.Family {
+	case "faultfree", "c07rounds", "c02restart":
+	default:
+		return
+	}
+	r := NewRng(seed, "vod/"+p.Family)
+	if !r.Bool(1.0/5) || len(p.Insts) == 0 || p.Sched.Free {
+		return
+	}
+	for k := 0; k < 2+r.Intn(5); k++ {
+		a := Action{Kind: Pick(r, []string{AValidateOD, AValidateOD, AValidate}), Inst: r.Intn(len(p.Insts))}
+		if r.Bool(0.5) {
+			a.At = r.Dur(0, p.Until)
+		} else {
+			a.OpKind, a.OpN, a.Phase = "create", 1+r.Intn(3), Pick(r, []string{"return", "return", "apply"})
+			a.Delay = Pick(r, []time.Duration{0, 0, r.Dur(0, 5*ms)})
+		}
+		p.Actions = append(p.Actions, a)
+	}
+	p.Note += " vod"
 }
 
 // bigPrioConfig: in one plan out of ten of the families whose records are written by the
